@@ -20,14 +20,15 @@ import (
 // ---- C04 / C05: multi-round block histories on the persistent store, with crash points (engine E3)
 
 type roundCfg struct {
-	name    string
-	paths   []string
-	vals    []string
-	rounds  int
-	txnOps  int // operations per transaction
-	maxTxns int // transactions per round
-	depth   int
-	c05     bool // evaluate the dead-node / prune oracles instead of the save oracles
+	name             string
+	paths            []string
+	vals             []string
+	rounds           int
+	txnOps           int // operations per transaction
+	maxTxns          int // transactions per round
+	depth            int
+	c05              bool // evaluate the dead-node / prune oracles instead of the save oracles
+	skipEmptyRecords bool // the caller records dead nodes only in rounds where something died
 }
 
 type rEvent struct {
@@ -197,8 +198,10 @@ func (w *rWorld) apply(e rEvent, judge bool) (fail string) {
 	if err := w.B.SaveChanges(context.Background(), w.pn, false); err != nil {
 		return fmt.Sprintf("SaveChanges: %v", err)
 	}
-	if err := w.pn.RecordDeadNodes(deletes, w.ver); err != nil {
-		return fmt.Sprintf("RecordDeadNodes: %v", err)
+	if !(w.c.skipEmptyRecords && len(deletes) == 0) {
+		if err := w.pn.RecordDeadNodes(deletes, w.ver); err != nil {
+			return fmt.Sprintf("RecordDeadNodes: %v", err)
+		}
 	}
 	idx1 := devc.Len()
 	w.saved = append(w.saved, savedRound{ver: w.ver, root: w.B.GetRoot(), model: copyMap(w.model), dead: hexKeys(deletes)})
@@ -438,7 +441,7 @@ func (w *rWorld) judgeDeadAndPrune(log []grocksdb.Rec) string {
 		if f != "" {
 			return f
 		}
-		for cut := len(log); cut < len(plog); cut++ {
+		for cut := len(log); cut <= len(plog); cut++ { // cut == len(plog): the prune completed, and is simply run again
 			w.stats.pruneCrashPoints++
 			pn3, p3 := openLog(plog[:cut])
 			when := fmt.Sprintf("crash after %d of %d writes of PruneBelowVersion(%d)", cut-len(log), len(plog)-len(log), v)
@@ -626,6 +629,8 @@ func C05(tier rt.Tier) int {
 			{name: "prefixfree-3rounds", paths: pfPaths[:3], vals: []string{"x"}, rounds: 3, txnOps: 1, maxTxns: 3, depth: 9, c05: true},
 			{name: "nested-2rounds", paths: nestedRound[:4], vals: []string{"x"}, rounds: 2, txnOps: 2, maxTxns: 2, depth: 8, c05: true},
 			{name: "restore-within-round", paths: pfPaths[:2], vals: []string{"x", "y"}, rounds: 2, txnOps: 3, maxTxns: 2, depth: 9, c05: true},
+			// rounds in which nothing died leave no dead-node record (gaps in the record versions)
+			{name: "idle-rounds-4", paths: pfPaths[:2], vals: []string{"x", "y"}, rounds: 4, txnOps: 1, maxTxns: 1, depth: 11, c05: true, skipEmptyRecords: true},
 		}
 	} else {
 		per = 8 * time.Minute
